@@ -1,7 +1,7 @@
 /-
   Line-protocol driver for the C12 model (KatdalModel/Model/Sensor.lean).
 
-  request:  run <inplace 0|1> <s|c> <P> {<dumps> <period> <keep> <getters> <raw> <props> <virt>}xP <cprops> <ops>
+  request:  run <inplace 0|1|2 (2 = in place, raw arrays restored after every op)> <s|c> <P> {<dumps> <period> <keep> <getters> <raw> <props> <virt>}xP <cprops> <ops>
             clean <getter>                   remove_duplicates_and_invalid_values on one getter
             interp <knots t:v,..> <xs>       np.interp
   separators: ' ' fields, '!' list of getters/ops, ';' fields of a getter/op or list of samples,
@@ -140,17 +140,24 @@ def showRes (r : Except Err Out) : String :=
   | .ok o => showOut o
   | .error e => showErr e
 
-def runSingle (s : Cache) (ops : List Op) : List String :=
+/-- `fresh`: the harness restores the raw arrays after every operation (in-place mode only) -/
+def runSingle (fresh : Bool) (s : Cache) (ops : List Op) : List String :=
   (ops.foldl (fun (acc : Cache × List String) op =>
     match op with
     | .keys => (acc.1, s!"K:{showKeys acc.1.raw}" :: acc.2)
-    | _ => let (r, s') := step acc.1 op; (s', showRes r :: acc.2)) (s, [])).2.reverse
+    | _ =>
+      let s0 := if fresh then { acc.1 with getters := s.getters } else acc.1
+      let (r, s') := step s0 op; (s', showRes r :: acc.2)) (s, [])).2.reverse
 
-def runConcat (cc : Concat) (ops : List Op) : List String :=
+def runConcat (fresh : Bool) (cc : Concat) (ops : List Op) : List String :=
   (ops.foldl (fun (acc : Concat × List String) op =>
     match op with
     | .keys => (acc.1, s!"K:{"^".intercalate (acc.1.parts.map fun c => showKeys c.raw)}" :: acc.2)
-    | _ => let (r, s') := Concat.step acc.1 op; (s', showRes r :: acc.2)) (cc, [])).2.reverse
+    | _ =>
+      let c0 : Concat := if fresh then
+          { acc.1 with parts := (acc.1.parts.zip cc.parts).map fun (a, o) => { a with getters := o.getters } }
+        else acc.1
+      let (r, s') := Concat.step c0 op; (s', showRes r :: acc.2)) (cc, [])).2.reverse
 
 def chunk7 : List String → Nat → Option (List (List String) × List String)
   | rest, 0 => some ([], rest)
@@ -166,13 +173,13 @@ def step (line : String) : String :=
     | some n =>
       match chunk7 rest n with
       | some (parts, [cprops, ops]) =>
-        match parts.mapM (parsePart (inplace = "1")), parsePropMap cprops, parseList "!" parseOp ops with
+        match parts.mapM (parsePart (inplace ≠ "0")), parsePropMap cprops, parseList "!" parseOp ops with
         | some ps, some cp, some ops =>
           if kind = "s" then
             match ps with
-            | [p] => "!".intercalate (runSingle p ops)
+            | [p] => "!".intercalate (runSingle (inplace = "2") p ops)
             | _ => "bad-op"
-          else "!".intercalate (runConcat { parts := ps, props := cp } ops)
+          else "!".intercalate (runConcat (inplace = "2") { parts := ps, props := cp } ops)
         | _, _, _ => "bad-op"
       | _ => "bad-op"
   | ["clean", g] =>
